@@ -7,7 +7,7 @@ import (
 	"github.com/akrylysov/pogreb/fs"
 )
 
-const vMaxKeys = 6
+const vMaxKeys = 40
 
 type refMap struct {
 	n       int
